@@ -644,6 +644,19 @@ def eng_pcf(run, rng, case) -> Tuple[Any, bool]:
     if d:
         raise Failure('compare', f'parse(export(x)) (Element path) differs at {d["path"]}: want {d["want"]!r} got {d["got"]!r}',
                       {'diff': d})
+    # multi-step history: rename parsed systems and operators, write, read: the new names must arrive
+    if y and not any(p.children for p in y):
+        for k, p in enumerate(y):
+            p.name = f'renamed_{k}_' + p.name
+            for kind in ('renderers', 'operators', 'initializers', 'emitters', 'forces', 'constraints'):
+                for j, op in enumerate(getattr(p, kind)):
+                    op.name = f'op{j}_' + op.name
+        want = snap_particles(y)
+        z = _call('read', lambda: read(write(y)))
+        d = G.first_diff(want, snap_particles(z))
+        run.count('pcf_rename_histories')
+        if d:
+            raise Failure('compare', f'parse -> rename -> write -> read differs at {d["path"]}: want {d["want"]!r} got {d["got"]!r}', {'diff': d})
     run.count('pcf_' + ('kv2' if encoding == 'kv2' else 'binary'))
     return case['value'], any(p.children or any(getattr(p, k) for k in ('renderers', 'operators', 'initializers', 'emitters', 'forces', 'constraints')) for p in x)
 
